@@ -1225,6 +1225,9 @@ def symdict_set(I, d, o, k, v):
 
 def symdict_update(I, d, other):
     od = I.hobj(d)
+    from .values import VAny as _VAny
+    if isinstance(other, _VAny):
+        raise Unsupported("dict.update from state with an unknown history")
     oo = I.hobj(other)
     if od.kind == "dict":
         # promote to symbolic dict
